@@ -220,6 +220,21 @@ def result_problems(fmt, text, res):
     return None, None
 
 
+def _source_has_no_data(fmt, epname, text):
+    """The documented ValueError of the single-object front ends (Tree.get, <Type>CharacterMatrix.get)
+    for a source without data, recognised by what the source holds rather than by the wording of
+    the message: the collection front end reads the same text and finds nothing of that kind."""
+    try:
+        if epname.startswith("Tree."):
+            return len(dendropy.TreeList.get(data=text, schema=fmt)) == 0
+        if epname.endswith("Matrix.get"):
+            kw = {"data_type": "dna"} if fmt in ("phylip", "fasta") else {"exclude_trees": True}
+            return len(dendropy.DataSet.get(data=text, schema=fmt, **kw).char_matrices) == 0
+    except Exception:
+        return False
+    return False
+
+
 def classify(fmt, epname, fn, text):
     """Returns (signature|None, message)."""
     status = run_limited(lambda: fn(text), 0.15)
@@ -237,7 +252,7 @@ def classify(fmt, epname, fn, text):
     e = status[1]
     if isinstance(e, dperror.DataParseError):
         return None, "parse-error"
-    if isinstance(e, ValueError) and any(str(e).startswith(p) for p in NO_DATA):
+    if isinstance(e, ValueError) and (any(str(e).startswith(p) for p in NO_DATA) or _source_has_no_data(fmt, epname, text)):
         return None, "no-data"
     where = innermost_dendropy_frame(e) or "outside-dendropy"
     return "%s|%s|%s" % (fmt, type(e).__name__, where), "%s raised %s: %s" % (epname, type(e).__name__, str(e)[:160].replace("\n", " "))
@@ -386,8 +401,11 @@ def run_chunk(chunk, ctx):
         run_text(name, fmt, text, ctx, True, "seed", nontrivial=False)
         for epname, fn in entry_points(name, fmt, True).items():
             st, v, nlines = budgeted(lambda: fn(text), BUDGET)
-            if st != "ok" and not (st == "exc" and isinstance(v, ValueError) and any(str(v).startswith(q) for q in NO_DATA)):
-                raise RuntimeError("seed %s does not parse through %s: %r" % (name, epname, v))
+            if st != "ok":
+                # not a harness matter: run_text above has already judged this outcome like any other
+                # (parse error / documented no-data error: allowed; anything else: reported)
+                ctx.count("seed_documents_not_accepted_by_an_entry_point")
+                continue
             ctx.maximum("max_lines_executed_on_a_valid_seed", nlines)
         for i in range(len(text)):
             run_text(name, fmt, text[:i], ctx, True, "prefix", nontrivial=i > 0)
